@@ -331,6 +331,76 @@ func pkgImpl(line string) string {
 		return pkgSpecLine(f[2:])
 	case "specdec":
 		return pkgSpecDecLine(f[2:])
+	case "rows":
+		return pkgRowsLine(f[2:])
 	}
 	return "bad-op"
+}
+
+// pkgRowsLine implements `pkg rows <kind> <fields> ;; <fields> …` (oracle only): a result set — the format,
+// then the data packages one after the other, each prepared with LastPkg(the package before it) as the
+// channel does — through the real readers; ALL rows are shown after the last one has been read (a consumer
+// may keep the packages it was given). Answer: `ok <fields of row 1> ;; <fields of row 2> …`.
+func pkgRowsLine(f []string) (out string) {
+	defer func() {
+		if r := recover(); r != nil {
+			out = "panic"
+		}
+	}()
+	if len(f) < 2 {
+		return "bad-op"
+	}
+	c := codecRegistry[f[0]]
+	if c == nil || c.SpecEnc == nil || c.CtxFor == nil {
+		return "bad-op"
+	}
+	var rows [][]string
+	cur := []string{}
+	for _, t := range f[1:] {
+		if t == ";;" {
+			rows = append(rows, cur)
+			cur = []string{}
+			continue
+		}
+		cur = append(cur, t)
+	}
+	rows = append(rows, cur)
+	ctx := c.CtxFor(rows[0])
+	if len(ctx) == 0 {
+		return "bad-op"
+	}
+	last, err := tds.LookupPackage(tds.Token(ctx[0]))
+	if err != nil {
+		return "err"
+	}
+	if cl, _ := decodeInto(last, ctx[1:]); cl != "ok" {
+		return "ctx-" + cl
+	}
+	var pkgs []tds.Package
+	for _, r := range rows {
+		bs, ok := c.SpecEnc(r)
+		if !ok || len(bs) < 1 {
+			return "bad-op"
+		}
+		pkg, err := tds.LookupPackage(tds.Token(bs[0]))
+		if err != nil {
+			return "err"
+		}
+		if acc, ok := pkg.(tds.LastPkgAcceptor); ok {
+			if err := acc.LastPkg(last); err != nil {
+				return "lasterr"
+			}
+		}
+		if cl, n := decodeInto(pkg, bs[1:]); cl != "ok" || n != len(bs)-1 {
+			return cl
+		}
+		pkgs = append(pkgs, pkg)
+		last = pkg
+	}
+	var shown []string
+	for _, pkg := range pkgs {
+		sh := strings.Fields(c.Show(pkg))
+		shown = append(shown, strings.Join(sh[1:], " "))
+	}
+	return "ok " + strings.Join(shown, " ;; ")
 }
